@@ -28,6 +28,7 @@ func c07ProbeRules(c *core.Ctx, root *packages.Package) {
 	c07LoopbackErr(c, root)
 	c07ForkEdge(c, root)
 	c07QueueHandoff(c, root)
+	c07QueryCancel(c, root)
 	if ep := c.P.Pkg("edge"); ep != nil {
 		c07Readers(c, ep)
 	} else {
